@@ -1,5 +1,6 @@
 import GoawkModel.C06
 import Proofs.C06Split
+import Proofs.C06SplitMulti
 /-! C06: `FS = ""` — `ensureFields` takes the "at most one rune" branch with an empty separator, i.e. `strings.Split(line, "")`:
 one field per UTF-8 sequence, an invalid byte standing alone. Nothing is lost, no field is empty. -/
 namespace GoawkModel.C06
@@ -120,6 +121,54 @@ theorem split_paragraph_char_clean (c : UInt8) (hc : c < 0x80) (h32 : c ≠ 32) 
   · intro h
     have := hgc c (hsub c (trimCR_subset g' c h))
     simp at this
+  · intro h
+    have := hnl 10 (trimCR_subset g' 10 h)
+    simp at this
+  · intro x hx
+    exact hgl x (hsub x (trimCR_subset g' x hx))
+
+end GoawkModel.C06
+
+/-! ### RS = "" with any one-character FS (multi-byte included) -/
+namespace GoawkModel.C06
+variable {ρ : Type} (M : ρ → Bytes → List (Nat × Nat))
+
+theorem mem_intercalate (sep : Bytes) : ∀ (l : List Bytes) (g : Bytes) (x : UInt8), g ∈ l → x ∈ g → x ∈ intercalate sep l
+  | [], g, x, hg, _ => by simp at hg
+  | [a], g, x, hg, hx => by
+    simp at hg; subst hg; simpa [intercalate] using hx
+  | a :: b :: rest, g, x, hg, hx => by
+    simp only [intercalate, List.mem_append]
+    rcases List.mem_cons.mp hg with rfl | hg
+    · exact Or.inl (Or.inl hx)
+    · exact Or.inr (mem_intercalate sep (b :: rest) g x hg hx)
+
+theorem splitSep_subset (sep : Bytes) (hsep : sep ≠ []) (s : Bytes) : ∀ g ∈ splitSep sep s, ∀ x ∈ g, x ∈ s := by
+  intro g hg x hx
+  have := mem_intercalate sep (splitSep sep s) g x hg hx
+  rwa [splitSep_join sep hsep s] at this
+
+theorem split_paragraph_onechar (fs : Bytes) (h1 : runeCount fs = 1) (h32 : fs ≠ [32]) (re : Option ρ) (line : Bytes)
+    (hl : line ≠ []) :
+    split M true fs re line = (splitSep fs line).flatMap (fun f => (splitSep [10] f).map trimCR) := by
+  have hne : fs ≠ [] := by intro e; subst e; simp [runeCount, runes, runesAux] at h1
+  simp [split, h32, hl, h1, hne]
+
+/-- with any one-character FS (a multi-byte character included) no field of a paragraph-mode record contains a newline, and
+every byte of a field comes from the record -/
+theorem split_paragraph_onechar_clean (fs : Bytes) (h1 : runeCount fs = 1) (h32 : fs ≠ [32]) (re : Option ρ) (line : Bytes)
+    (hl : line ≠ []) :
+    ∀ f ∈ split M true fs re line, (10 : UInt8) ∉ f ∧ ∀ x ∈ f, x ∈ line := by
+  have hne : fs ≠ [] := by intro e; subst e; simp [runeCount, runes, runesAux] at h1
+  intro f hf
+  rw [split_paragraph_onechar M fs h1 h32 re line hl] at hf
+  simp only [List.mem_flatMap, List.mem_map] at hf
+  obtain ⟨g, hg, g', hg', rfl⟩ := hf
+  have hgl := splitSep_subset fs hne line g hg
+  rw [splitSep_single] at hg'
+  have hnl := splitOnP_no_sep (fun b => b == (10 : UInt8)) g g' hg'
+  have hsub := splitOnP_subset (fun b => b == (10 : UInt8)) g g' hg'
+  refine ⟨?_, ?_⟩
   · intro h
     have := hnl 10 (trimCR_subset g' 10 h)
     simp at this
